@@ -288,6 +288,10 @@ sts_n(Source *source, Sink *sink, const size_t n)
              * otherwise we cannot. */
             shortcut = true;
             continue;
+        } else if (rc == -EINTR || rc == -EAGAIN) {
+            /* A chunk source that offers its buffer is called directly, so
+             * its interruptions surface here. Nothing was moved: Retry. */
+            continue;
         } else if (rc < 0) {
             return rc;
         }
@@ -313,6 +317,8 @@ sts_drain(Source *source, Sink *sink)
              * can provide a buffer in the next iteration, we can go on,
              * otherwise we cannot. */
             shortcut = true;
+            continue;
+        } else if (rc == -EINTR || rc == -EAGAIN) {
             continue;
         } else if (rc < 0) {
             break;
